@@ -125,6 +125,10 @@ def finish (st : St) : St × String :=
 def step (st : St) (ws : List String) : St × String :=
   match ws with
   | ["finish"] => match st with | .none => (st, "no-executor") | _ => finish st
+  | ["quiesce"] =>
+    match st with
+    | .none => (st, "no-executor")
+    | _ => let (st, ev) := drain 200000 st []; (st, s!"quiesce: {evsStr ev} | {stateStr st}")
   | ["settle"] =>
     match st with
     | .none => (st, "no-executor")
